@@ -127,7 +127,7 @@ pub fn run(ctx: &mut Ctx) {
     }
     ctx.report.note("exhaustive_subspaces", J::Arr(vec![J::from("vocabulary x format: every constructor / derived copula / punctuation / stamp form, minimal and nested, through both pipelines")]));
     let mut rng = ctx.rng(0xC03);
-    let n = ctx.share(90_000, 4_000_000);
+    let n = ctx.share(500_000, 10_000_000);
     for i in 0..n {
         if ctx.out_of_time() {
             ctx.report.inconclusive.push(format!("random workload cut at {} of {}", i, n));
